@@ -262,10 +262,45 @@ def run(res: Results, idx: Index, tier: str) -> None:
             res.unresolved("R-C06d", f"{LAX}scan.py:{f.node.lineno}", key, "Loop input list not found", f.qualname)
             continue
         call, elts = lists[0]
-        exprs = _closure_exprs(ds, elts[0])
-        from_length = any(isinstance(x, ast.Name) and x.id == "length" for e in exprs for x in ast.walk(e))
-        from_extent = any(isinstance(c, ast.Call) and (call_name(c) or "").split(".")[-1] in ("_gather_int_scalar", "Shape", "_shape_of") for e in exprs for c in ast.walk(e))
-        if from_length or from_extent:
-            res.ok("R-C06d", f"{LAX}scan.py:{getattr(call, 'lineno', f.node.lineno)}", key, "trip count derives from `length`" + (" / the scanned operand's leading extent" if from_extent else ""), f.qualname)
+        g = cfg_of(f.node)
+        use_stmt = enclosing_stmt(call) if not isinstance(call, ast.stmt) else call
+
+        def _mentions(e: ast.AST) -> Tuple[bool, bool]:
+            exprs = _closure_exprs(ds, e)
+            fl = any(isinstance(x, ast.Name) and x.id == "length" for v in exprs for x in ast.walk(v))
+            fe = any(isinstance(c, ast.Call) and (call_name(c) or "").split(".")[-1] in ("_gather_int_scalar", "Shape", "_shape_of") for v in exprs for c in ast.walk(v))
+            return fl, fe
+
+        def _reaching(name: str, at: ast.AST) -> List:
+            """Definitions of `name` from which `at` is reachable without passing another definition of it."""
+            defs = [d for d in ds.defs.get(name, []) if d.kind in ("assign", "aug", "walrus") and d.value is not None]
+            out = []
+            at_nodes = set(g.nodes_of(at))
+            for d in defs:
+                others = {n for o in defs if o is not d for n in g.nodes_of(o.stmt)}
+                if g.reachable(g.nodes_of(d.stmt), removed_nodes=others - set(g.nodes_of(d.stmt))) & at_nodes:
+                    out.append(d)
+            return out
+
+        bad: List[str] = []
+        n_defs = 0
+
+        def _judge(e: ast.AST, at: ast.AST, depth: int = 0) -> None:
+            nonlocal n_defs
+            if isinstance(e, ast.Name) and depth < 4:
+                rds = _reaching(e.id, at)
+                if rds:
+                    for d in rds:
+                        if isinstance(d.value, ast.Constant) and d.value.value is None:
+                            continue  # the `None` placeholder is replaced before use (tested by `is None`)
+                        _judge(d.value, d.stmt, depth + 1)
+                    return
+            n_defs += 1
+            fl, fe = _mentions(e)
+            if not (fl or fe):
+                bad.append(f"`{src(e, 60)}` (line {getattr(e, 'lineno', '?')})")
+        _judge(elts[0], use_stmt)
+        if not bad and n_defs:
+            res.ok("R-C06d", f"{LAX}scan.py:{getattr(call, 'lineno', f.node.lineno)}", key, f"every definition of the trip count that reaches the Loop ({n_defs}) derives from `length` / the scanned operand's leading extent", f.qualname)
         else:
-            res.violation("R-C06d", f"{LAX}scan.py:{getattr(call, 'lineno', f.node.lineno)}", key, f"the Loop trip count `{src(elts[0])}` derives neither from `length` nor from the scanned operand's extent", f.qualname)
+            res.violation("R-C06d", f"{LAX}scan.py:{getattr(call, 'lineno', f.node.lineno)}", key, f"a definition of the Loop trip count that reaches the node derives neither from `length` nor from the scanned operand's extent: {'; '.join(bad) or src(elts[0])} — the loop then runs a number of iterations unrelated to the scan length", f.qualname)
